@@ -68,8 +68,8 @@ def RegisterNodeAddress : List String := ["storage.Set"]
 def RegisterWaitingTunnel : List String := ["time.Now", "now.Add", "makeKey", "storage.Set"]
 def RemoveWaitingTunnel : List String := ["makeKey", "storage.Delete"]
 def hybrid_Delete : List String := ["getCategory", "getCacheForKey", "cache.Delete", "cache.Delete", "persistent.Delete", "cache.Delete", "persistent.Delete"]
-def hybrid_Get : List String := []
-def hybrid_Set : List String := []
+def hybrid_Get : List String := ["getCategory", "getCacheForKey", "cache.Get", "getSharedPersistent", "cache.Get", "persistent.Get"]
+def hybrid_Set : List String := ["getCategory", "setPersistent", "setShared", "setSharedPersistent", "setRuntime"]
 def hybrid_getCacheForKey : List String := ["isShared"]
 def hybrid_setShared : List String := ["getCacheForKey", "cache.Set"]
 def lookupTunnelRouting : List String := ["ctx.Done", "tunnelRouting.LookupWaitingTunnel", "time.Sleep"]
